@@ -136,6 +136,7 @@ func c02Variants(reduced bool) []opVariant {
 		}},
 		{"take-1", func(sch []string, i int) (gen.Op, []string) { return &gen.Take{Kw: "take", N: num("1")}, keep(sch) }},
 		{"limit-2", func(sch []string, i int) (gen.Op, []string) { return &gen.Take{Kw: "limit", N: num("2")}, keep(sch) }},
+		{"take-10", func(sch []string, i int) (gen.Op, []string) { return &gen.Take{Kw: "take", N: num("10")}, keep(sch) }},
 		{"take-0", func(sch []string, i int) (gen.Op, []string) { return &gen.Take{Kw: "take", N: num("0")}, keep(sch) }},
 		{"top-1", func(sch []string, i int) (gen.Op, []string) {
 			c1, _ := c12(sch)
@@ -171,7 +172,7 @@ func c02Variants(reduced bool) []opVariant {
 		return all
 	}
 	keepNames := map[string]bool{"where-gt": true, "project-rename": true, "project-swap-names": true, "extend": true, "summarize-count-by": true, "summarize-max": true,
-		"sort": true, "sort-asc": true, "take-1": true, "limit-2": true, "top-1": true, "count": true, "as": true, "render": true}
+		"sort": true, "sort-asc": true, "take-1": true, "limit-2": true, "take-10": true, "top-1": true, "count": true, "as": true, "render": true}
 	var out []opVariant
 	for _, v := range all {
 		if keepNames[v.name] {
